@@ -1271,6 +1271,11 @@ namespace awkward {
 
   const ContentPtr
   NumpyArray::getitem_range_nowrap(int64_t start, int64_t stop) const {
+    if (isscalar()) {
+      throw std::invalid_argument(
+        std::string("cannot slice a zero-dimensional NumpyArray")
+        + FILENAME(__LINE__));
+    }
     ssize_t byteoffset = byteoffset_ + strides_[0]*((ssize_t)start);
     std::vector<ssize_t> shape;
     shape.emplace_back((ssize_t)(stop - start));
